@@ -130,6 +130,18 @@ type HasPrefix struct {
 	V   UPrefix
 	Lvl string
 }
+type MapU struct {
+	Keys   []string
+	Values map[string]UPrefix
+}
+type HasMapU struct {
+	M MapU
+	K MapK
+}
+type MapK struct {
+	Keys   []string
+	Values map[string]UKinded
+}
 type MapS struct {
 	Keys   []string
 	Values map[string]Simple
@@ -189,6 +201,9 @@ type StrB string
 type UPrefix union { | StrA "a:" | StrB "b:" } representation stringprefix
 type Level enum { | Low ("1") | High ("2") } representation int
 type HasPrefix struct { U UPrefix  V UPrefix  Lvl Level }
+type MapU {String:UPrefix}
+type MapK {String:UKinded}
+type HasMapU struct { M MapU  K MapK }
 type MapS {String:Simple}
 type HasMapS struct { M MapS }
 type Swapped struct { Src String (rename "Dst")  Dst String (rename "Src") }
@@ -311,6 +326,13 @@ var vocab = []vtype{
 			func() interface{} { return &HasPrefix{U: UPrefix{A: sp("x")}, V: UPrefix{B: sp("")}, Lvl: "High"} },
 			func() interface{} {
 				return &HasPrefix{U: UPrefix{B: sp("a:tricky")}, V: UPrefix{A: sp("b:")}, Lvl: "Low"}
+			},
+		}},
+	{name: "HasMapU", schema: "HasMapU", ptr: func() interface{} { return (*HasMapU)(nil) },
+		vals: []func() interface{}{
+			func() interface{} {
+				return &HasMapU{M: MapU{Keys: []string{"p", "q"}, Values: map[string]UPrefix{"p": {A: sp("one")}, "q": {B: sp("two")}}},
+					K: MapK{Keys: []string{"r"}, Values: map[string]UKinded{"r": {Num: ip(3)}}}}
 			},
 		}},
 	{name: "HasMapS", schema: "HasMapS", ptr: func() interface{} { return (*HasMapS)(nil) },
